@@ -36,6 +36,14 @@ CHECKS.update({
    note="placement space bounded by depth (2 quick exhaustive, 3 thorough sampled); outcome classes decided by 2 calls with one key and 1 with another; two deviations are listed in known_findings.json by the pjax.py rule through which they occur (Lowering.tla: Family)",
    technique="TLA+ spec (Lowering.tla: Contract outcome vs Impl of lowering/batching/jvp rules and the Seed interpreter) checked by TLC; every enumerated placement executed as real JAX code and classified",
    text="TLC enumerates every stack of <= Depth contexts from {jit, scan, while, fori_static, fori_dynamic, cond, switch, grad, vmap, modular_vmap, remat, custom_jvp, seed} around one site (batched or not) and checks the rule model against the Contract outcome; each placement is built and run as real code: lowering error / other error / keyed value / fresh eager value / replicated lanes / fixed or hidden randomness must match the Contract."),
+ "C08": dict(category="model_checking", design_ref="DESIGN.md §4 C08",
+   note="modular_vmap: the case table of ModularVmap.tla (ranks <= 2, 2|3 lanes, one site per function) - composition with other ops relies on jax.vmap itself; Vmap combinator: GFI corpus bounds",
+   technique="TLA+ specs (ModularVmap.tla lane-wise Contract vs batching-rule model; GFI.tla for the Vmap combinator) checked by TLC; exported cases executed on real modular_vmap with echo / bit-revealing / density sites; GFI behaviours replayed",
+   text="TLC checks the batching-rule model against the lane-wise Contract for every (site kind, in_axes in {0,1,None,mixed}, sample_shape, per-lane ranks) case and exports the expected tensors; each case runs on the real modular_vmap (eager, seeded, jit, explicit axis_size, dict-pytree in_axes) with parameter-echoing sites (layout, pairing), bit-revealing sites (independent lanes) and density sites; the Vmap combinator / repeat is replayed through GFI.tla behaviours (simulate/generate/update/regenerate on vectorised programs)."),
+ "C19": dict(category="model_checking", design_ref="DESIGN.md §4 C19",
+   note="program grammar of StateInterp.tla (depth <= 3); save inside cond branches / nested jit / while are outside the claim and the grammar; where scans and vmaps nest only the set of axes is Contract-level, their order is informational",
+   technique="TLA+ spec (StateInterp.tla: namespace-stack interpreter vs denotational Collected) checked by TLC; every exported program built as a real function and run as state(f), jit, seed, vmap",
+   text="TLC checks the interpreter model (namespace stack, fresh interpreter per scan body, merge) against the denotational collected dictionary for every program of the grammar (namespaces around/inside scans, nested scans, vmaps, later writes) and exports the expected dictionaries; each program is built as a real function: result unchanged by state, collected names and arrays equal, eagerly, under jit, under seed, under vmap(state(f)), with jax.vmap and modular_vmap inside."),
 })
 
 PENDING = {}
